@@ -191,7 +191,14 @@ impl Scenario for CacheBankHistory {
                     let to = 1 + (mix(lseed, b as u64, 0x777) % (banks as u64 - 1)) as u8;
                     let pre = (mix(lseed, 0, 0x778) % 3) as usize; // same in every bank: the continuation must line up
                     let mut code = vec![0x04u8; pre];
-                    code.extend([0x3e, to, 0xea, 0x00, 0x21, 0x3e, (mix(lseed, b as u64, 0x779) & 0xff) as u8 | 1, 0xea, 0xe0, 0xc0, 0x34, 0xc3, HUB as u8, (HUB >> 8) as u8]);
+                    // mostly the ROM bank register; sometimes the upper-bits / RAM-bank register or the MBC1 mode register, which
+                    // remap the window only on large MBC1 cartridges (and not at all on MBC3: then the block simply carries on)
+                    let (reg_hi, val): (u8, u8) = match mix(lseed, b as u64, 0x77a) % 10 {
+                        0..=5 => (0x21 + (mix(lseed, b as u64, 0x77b) % 0x1f) as u8, to),
+                        6..=8 => (0x40 + (mix(lseed, b as u64, 0x77b) % 0x20) as u8, (mix(lseed, b as u64, 0x77c) % 4) as u8),
+                        _ => (0x60 + (mix(lseed, b as u64, 0x77b) % 0x20) as u8, (mix(lseed, b as u64, 0x77c) % 2) as u8),
+                    };
+                    code.extend([0x3e, val, 0xea, 0x00, reg_hi, 0x3e, (mix(lseed, b as u64, 0x779) & 0xff) as u8 | 1, 0xea, 0xe0, 0xc0, 0x34, 0xc3, HUB as u8, (HUB >> 8) as u8]);
                     case.blobs.insert(patch_key(rom_offset(a as usize, b)), code);
                     continue;
                 }
